@@ -387,7 +387,7 @@ def _guards(fn, st):
     return out
 
 
-def zone_applied(ctx, m, rule, modname, fname, style):
+def zone_applied(ctx, m, rule, modname, fname, style, catches=False):
     """The reader takes the zone label from the right token / capture group, looks it up with timezone() and converts the
     stamp into it -- and does so exactly when a label is present.  The conversion sits in a `try` whose bare `except`
     returns the unconverted stamp, so taking the wrong token, dropping the look-up or inverting the guard does not
@@ -438,6 +438,47 @@ def zone_applied(ctx, m, rule, modname, fname, style):
                 else:
                     ctx.error(rule, '%s: zone object `%s` is not the result of timezone(label); cannot decide' % (fname, tzv))
             conv = None
+    # an official zone name this host cannot map makes timezone() raise; the reader then keeps the stamp as written
+    # instead of rejecting the whole document -- the handler around the look-up must catch what timezone() raises
+    site = look if look is not None else conv
+    if site is not None and catches:
+        raised = set()
+        try:
+            for r_ in ast.walk(m.func('zoneinfo', 'timezone')):
+                if isinstance(r_, ast.Raise) and r_.exc is not None:
+                    raised.add(norm(r_.exc.func) if isinstance(r_.exc, ast.Call) else norm(r_.exc))
+        except AnalysisError as e:
+            ctx.error(rule, str(e))
+        tr_ = None
+        p_ = getattr(site, '_parent', None)
+        ch_ = site
+        while p_ is not None and p_ is not fn:
+            if isinstance(p_, ast.Try) and ch_ in p_.body:
+                tr_ = p_
+                break
+            ch_, p_ = p_, getattr(p_, '_parent', None)
+        fam = {'ValueError': {'ValueError', 'Exception', 'BaseException'}, 'KeyError': {'KeyError', 'LookupError', 'Exception', 'BaseException'}}
+        if raised:
+            caught = set()
+            bare = False
+            if tr_ is not None:
+                for h in tr_.handlers:
+                    if h.type is None:
+                        bare = True
+                    else:
+                        caught |= {x.strip() for x in norm(h.type).strip('()').split(',')}
+            missing = sorted(r_ for r_ in raised if not bare and not (fam.get(r_, {r_, 'Exception', 'BaseException'}) & caught))
+            if not missing:
+                ctx.ob(rule, '%s: the handler around the zone look-up catches what timezone() raises (%s)' % (fname, ', '.join(sorted(raised))),
+                       True, '%s:%d' % (F_, site.lineno))
+            else:
+                ctx.violation(rule, con, 'except %s' % (sorted(caught) or 'nothing'),
+                              'a well-formed stamp whose zone name is in the official list but not mapped on this host (for example '
+                              '2020-01-01T00:00:00-06:00 Beulah where pytz lacks America/North_Dakota/Beulah): timezone() raises %s, '
+                              'nothing catches it, and the whole document is rejected instead of the stamp being kept as written'
+                              % missing[0],
+                              'timezone() raises %s for a name this host cannot map; the handler around the look-up catches only %s'
+                              % (missing[0], sorted(caught) or 'nothing'), file=F_, line=(tr_ or site).lineno, engine='E7')
     tzname = sc.bind.get('tzname')
     if tzs is not None and src_guard_ok:
         gs = _guards(fn, tzs)
